@@ -4,8 +4,8 @@ import RbV.Ref.Gotoh
 namespace RbV.AlignCodec
 open RbV.Codec RbV.Align
 
-/- `MIN_SCORE` is `Align.minScore` (the harness reports the constant of the tree under test in the `const`
-case, the driver compares). -/
+/- `MIN_SCORE` is `Align.minScore` = `Gen.Limits.minScorePairwise`, extracted from the source text on every run (the
+harness reports the run-time value of the compiled constant in the `const` case, the driver compares). -/
 
 /-- substitution function from an alphabet and a row-major `|A|×|A|` table; 0 outside the alphabet
 (the harness refuses sequences with symbols outside the alphabet) -/
@@ -14,12 +14,15 @@ def mkW (alpha : List Nat) (tab : Array Int) : Nat → Nat → Int := fun a b =>
   let j := alpha.idxOf b
   if i < alpha.length ∧ j < alpha.length then tab.getD (i * alpha.length + j) 0 else 0
 
+/-- a clip penalty: an integer, or `min` = `MIN_SCORE` of the tree under test (`Align.minScore`, source-extracted) -/
+def parseClip (s : String) : Option Int := if s = "min" then some minScore else parseInt s
+
 /-- `sc:<go>:<ge>:<xp>:<xs>:<yp>:<ys>` -/
 def parseScTok (tok : String) : Option (Int × Int × Clip) :=
   match tok.splitOn ":" with
   | ["sc", go, ge, xp, xs, yp, ys] => do
     let go ← parseInt go; let ge ← parseInt ge
-    let xp ← parseInt xp; let xs ← parseInt xs; let yp ← parseInt yp; let ys ← parseInt ys
+    let xp ← parseClip xp; let xs ← parseClip xs; let yp ← parseClip yp; let ys ← parseClip ys
     pure (go, ge, ⟨xp, xs, yp, ys⟩)
   | _ => none
 
